@@ -23,7 +23,7 @@ from cpsa.tablekit import Ctx  # noqa: E402
 
 BASE_TRUSTED = [
     "CPython 3.12 ast module (parser of the pinned interpreter)",
-    "the cpsa engine: program model, finite-domain abstract interpreter, CFG/dominators, escape fixpoint",
+    "the cpsa engine: program model, finite-domain abstract interpreter, definite-assignment and hidden-state analyses, escape fixpoint",
     "frozen tables in cpsa/tables (external raisers, assert triage, SQL capacities, ODF constructs)",
 ]
 
